@@ -69,7 +69,7 @@ func matchValue(exp val, got interface{}, p Profile, where string) *mismatch {
 			return bad("want int64(%d)", want)
 		}
 	case "float":
-		want := floatTable[exp["t"].(string)].val
+		_, want := p.float(exp["t"].(string))
 		g, ok := got.(float64)
 		if !ok || g != want {
 			return bad("want float64(%v)", want)
@@ -220,7 +220,8 @@ func goValue(v val, p Profile) interface{} {
 	case "i64":
 		return p.int(behav.ToInt(x), 0)
 	case "f64":
-		return floatTable[x.(string)].val
+		_, f := p.float(x.(string))
+		return f
 	case "bool":
 		return x.(bool)
 	case "nil":
